@@ -337,39 +337,46 @@ func SchedMain(r *Run, tests []*SchedTest, plan SchedPlan) {
 		scratch = os.TempDir()
 	}
 	var wg sync.WaitGroup
-	sem := make(chan struct{}, Workers())
 	var emu sync.Mutex
 	var firstErr string
-	for i := range jobs {
-		wg.Add(1)
-		go func(i int) {
-			defer wg.Done()
-			sem <- struct{}{}
-			defer func() { <-sem }()
-			js, _ := json.Marshal(jobs[i])
-			out := filepath.Join(scratch, fmt.Sprintf("schedjob-%d.json", i))
-			cmd := exec.Command(os.Args[0], os.Args[1:]...)
-			cmd.Env = append(os.Environ(), "GOMAXPROCS=1", "VERIF_SCHED_JOB="+string(js), "VERIF_SCHED_OUT="+out)
-			cmd.Stdout, cmd.Stderr = os.Stderr, os.Stderr
-			err := cmd.Run()
-			if err == nil {
-				var b []byte
-				if b, err = os.ReadFile(out); err == nil {
-					rep := &SchedReport{}
-					if err = json.Unmarshal(b, rep); err == nil {
-						reps[i] = rep
-					}
+	next := make(chan int) // jobs are handed out in plan order, so the lower bounds finish first when time is short
+	runJob := func(i int) {
+		js, _ := json.Marshal(jobs[i])
+		out := filepath.Join(scratch, fmt.Sprintf("schedjob-%d.json", i))
+		cmd := exec.Command(os.Args[0], os.Args[1:]...)
+		cmd.Env = append(os.Environ(), "GOMAXPROCS=1", "VERIF_SCHED_JOB="+string(js), "VERIF_SCHED_OUT="+out)
+		cmd.Stdout, cmd.Stderr = os.Stderr, os.Stderr
+		err := cmd.Run()
+		if err == nil {
+			var b []byte
+			if b, err = os.ReadFile(out); err == nil {
+				rep := &SchedReport{}
+				if err = json.Unmarshal(b, rep); err == nil {
+					reps[i] = rep
 				}
 			}
-			if err != nil {
-				emu.Lock()
-				if firstErr == "" {
-					firstErr = fmt.Sprintf("job %s failed: %v", js, err)
-				}
-				emu.Unlock()
+		}
+		if err != nil {
+			emu.Lock()
+			if firstErr == "" {
+				firstErr = fmt.Sprintf("job %s failed: %v", js, err)
 			}
-		}(i)
+			emu.Unlock()
+		}
 	}
+	for w := 0; w < Workers(); w++ {
+		wg.Add(1)
+		go func() {
+			defer wg.Done()
+			for i := range next {
+				runJob(i)
+			}
+		}()
+	}
+	for i := range jobs {
+		next <- i
+	}
+	close(next)
 	wg.Wait()
 	if firstErr != "" {
 		r.HarnessError("%s", firstErr)
